@@ -196,16 +196,16 @@ def pyPackageRel (i : Invocation) (ns : Path) : Option Path :=
 def fileKey (i : Invocation) (rel : Path) : Path := i.root ++ rel
 
 /-- what one source file contributes: namespace components and emitted file names -/
-structure Unit where
+structure GenUnit where
   ns : Path
   files : List String
 
 /-- absolute paths of all emitted files -/
-def emittedAbs (i : Invocation) (us : List Unit) : List Path :=
+def emittedAbs (i : Invocation) (us : List GenUnit) : List Path :=
   us.flatMap fun u => u.files.map fun f => absPath i.cwd i.outAbs (outputDir i u.ns ++ [f])
 
 /-- emitted paths relative to the `-out` directory: what the property compares -/
-def emittedRel (us : List Unit) : List Path :=
+def emittedRel (us : List GenUnit) : List Path :=
   us.flatMap fun u => u.files.map fun f => u.ns ++ [f]
 
 end FV.Determinism
